@@ -3,7 +3,9 @@
 package c20
 
 import (
+	"encoding/json"
 	"fmt"
+	"os"
 	"math"
 	"reflect"
 	"regexp"
@@ -176,6 +178,12 @@ func walk(v any, f func(name string, args []any)) {
 }
 
 func Run(cs Case, c *vrt.Ctx) {
+	if p := os.Getenv("VERIF_TRACE_CASE"); p != "" {
+		// debugging aid: the case that was running when the process died
+		if b, err := json.Marshal(cs); err == nil {
+			_ = os.WriteFile(fmt.Sprintf("%s.%d", p, os.Getpid()), b, 0o644)
+		}
+	}
 	plan := freshPlan(cs)
 	if len(plan) == 0 {
 		c.DontCare("empty plan")
@@ -243,6 +251,34 @@ func Run(cs Case, c *vrt.Ctx) {
 		}
 	})
 	if deepFn {
+		// a set that stores a container inside itself (the value reads a prefix of the target:
+		// [set @.asm @] in an each body, [set "$.src.ints[1]" $.src.ints]) can make and use the
+		// cycle within one step, where the stepwise search below does not see it
+		static := false
+		walk(plan, func(name string, args []any) {
+			if (name != "set" && name != "setall") || len(args) != 2 {
+				return
+			}
+			target, _ := args[0].(string)
+			var scan func(v any)
+			scan = func(v any) {
+				switch tv := v.(type) {
+				case string:
+					if tv == "$" || (tv == "@" && strings.HasPrefix(target, "@")) || (len(tv) > 1 && (target == tv || strings.HasPrefix(target, tv+".") || strings.HasPrefix(target, tv+"["))) {
+						static = true
+					}
+				case []any:
+					for _, e := range tv {
+						scan(e)
+					}
+				}
+			}
+			scan(args[1])
+		})
+		if static {
+			c.Fail("crash-by-construction", "Plan.Execute", "the plan stores a container inside itself and applies string / equal / include (not executed); "+ctxOf(planText, rootText), "cyclic-root-then-deep-function")
+			return
+		}
 		// run the plan step by step (prefixes of the top level sequence, each on a fresh root)
 		// and look for a cycle in the root before the next step runs
 		steps := plan
